@@ -102,6 +102,10 @@ def shared_key(n, ticket_recs):
     return None
 
 
+# functions that run before any other thread can use the library (matrixSslOpen path)
+SINGLE_THREADED_INIT = {"matrixSslOpenWithConfig", "matrixSslOpen", "initSessionEntryChronList"}   # table initialisation: called only from matrixSslOpenWithConfig, after Memset of the table (inUse == 0 everywhere)
+
+
 def run(tier):
     res = Result(PROP, tier)
     prog = load_program()
@@ -380,4 +384,46 @@ def run(tier):
                                  file=fn.relfile, line=uln)
                 res.instance("C20.R4", "%s: %s pinned before the unlock at line %s" % (fn.name, v["n"], uln), esc is None, finding=f_)
     res.floor("C20.R4", 1)
+    # ------------------------------------------------------------------ R5
+    res.rule("C20.R5", "session table: an entry is unlinked from the replacement list only when it just became in use (inUse == 1) "
+                       "and linked back only when it just became unused (inUse == 0)")
+    n5 = 0
+    for fn in sorted(prog.functions.values(), key=lambda f: f.qname):
+        if not fn.blocks or not fn.relfile.startswith("matrixssl/"):
+            continue
+        gf5 = None
+        for b in fn.blocks:
+            for i, ln, x in cu.block_exprs(b):
+                for nd in walk(x):
+                    if nd.get("k") != "bin" or nd["op"] != "=":
+                        continue
+                    lt = _pp(strip(nd["l"]))
+                    if "g_sessionTable[" not in lt or "chronList" not in lt:
+                        continue
+                    kind = None
+                    if lt.endswith("->pNext->pPrev") or lt.endswith("->pPrev->pNext"):
+                        kind = "unlink"
+                    elif lt.endswith("chronList)->pNext") or lt.endswith("chronList)->pPrev") or lt.endswith("chronList.pNext") or lt.endswith("chronList.pPrev"):
+                        kind = "link"
+                    if kind is None:
+                        continue
+                    if gf5 is None:
+                        gf5 = cu.guard_facts(fn)
+                    facts = gf5.get(b["id"], frozenset())
+                    ent = lt[lt.index("g_sessionTable["):].split("]")[0] + "]"
+                    want = "(%s.inUse == %d)" % (ent, 1 if kind == "unlink" else 0)
+                    ok = (want, True) in facts or (kind == "link" and ("%s.inUse" % ent, False) in facts)
+                    if not ok and fn.name in SINGLE_THREADED_INIT:
+                        ok = True
+                    n5 += 1
+                    f_ = None
+                    if not ok:
+                        f_ = Finding(PROP, "C20.R5", fn.name, "%s of %s without the in-use test" % (kind, ent),
+                                     "%s:%s %s(): `%s` %ss the cache entry %s the replacement list without the branch fact %s: an entry that "
+                                     "is already off the list is unlinked again (its stale neighbour pointers re-link another, live entry at "
+                                     "the list head, which the next registration hands to an unrelated session) or a still used entry is "
+                                     "offered for replacement" % (fn.relfile, ln, fn.name, lt[:60], kind, "from" if kind == "unlink" else "into", want),
+                                     file=fn.relfile, line=ln)
+                    res.instance("C20.R5", "%s:%s %s %s under %s" % (fn.name, ln, kind, ent, want), ok, finding=f_)
+    res.floor("C20.R5", 4)
     return res.finish()
